@@ -65,6 +65,21 @@ def run(ctx):
         victim = r.choice(sorted(files))
         kind, files[victim] = mutate_text.mutate(r, files[victim])
         cases.append({'files': files, 'root': p['root']}); kinds.append(kind)
+    # syntactically VALID programs whose doc comments carry documentation commands in every shape (both spellings, without parameter,
+    # look-alikes): comments are free text, parsing must not depend on them
+    from . import c03, c16
+    for i in range(ctx.n(16, 160)):
+        g = gen_idl.Gen(r, max_decls=r.choice([3, 6]), multi_file=0.2, p_comment=0.3)
+        p = g.program()
+        c03.add_commands(r, p)
+        cases.append({'files': gen_idl.print_program(p, None, 'canon'), 'root': p['root']}); kinds.append('doc-commands')
+    # import graphs (trees, shared files, cycles, self imports, missing files, non-canonical spellings such as d/../x): the outcome must be
+    # a result or the tool's diagnostics.  Cycles in which a re-parsed file has several imports do not terminate in practice (recorded
+    # finding C16-K3, judged by C16); they are left out here.
+    gcases, _ = c16.make_cases(r, ctx.n(30, 300))
+    for c in gcases:
+        if not c.get('_skip_model'):
+            cases.append(c); kinds.append('import-graph')
     t0 = time.time()
     mism, obs = kfront.run(ctx, 'c06', cases, parts=('errors',))
     if obs is None:
@@ -98,4 +113,5 @@ def run(ctx):
                  'token deletion/duplication/swap/truncation/insertion/replacement, multi-edits, raw character noise, deep nesting (types, '
                  'namespaces, inline functions; balanced and unbalanced) of generated programs, mutations inside imported files, and unknown '
                  'types in every syntactic position (field, parameter, return, throws, property, error-code parameter, inline function, '
-                 'generic argument, optional)')
+                 'generic argument, optional); valid programs with documentation commands of every shape in their comments; import graphs with '
+                 'cycles, self imports, missing files and non-canonical path spellings')
